@@ -1158,6 +1158,49 @@ def growers(rng):
     return a.assemble(), feats
 
 
+def near_limit_operands(rng, limit):
+    """Operands whose size sits right at the value-size limit (limit-2 .. limit+1 nodes) are fed to the instructions
+    that wrap an operand into a larger value: storage keys and values (literal and computed, stored then loaded back
+    on the same path), hashes, balances, memory round trips."""
+    a = evm.Asm()
+    feats = {"near-limit"}
+
+    def sized(n):
+        n = max(1, n)
+        a.emit(rng.choice(["CALLVALUE", "CALLER", "CALLDATASIZE"]))
+        if n > 1:
+            a.emit(bytes([0x19]) * (n - 1))        # n-1 NOTs: a chain of exactly n nodes
+    for _ in range(rng.randint(1, 4)):
+        n = limit + rng.choice([-2, -1, -1, 0, 0, 1])
+        shape = rng.choice(["store-literal-load", "store-computed-load", "load-unwritten", "value-side", "hash", "balance",
+                            "mem-roundtrip", "store-literal-load"])
+        feats.add("near-limit:" + shape)
+        if shape == "store-literal-load":
+            sized(n)                                # key
+            a.emit("DUP1", rng.choice([0x2a, ("push", 0, 1), ("push", 7, 32)]), "SWAP1", "SSTORE", "SLOAD",
+                   rng.choice([["POP"], [0, "MSTORE"], [1, "SSTORE"]]))
+        elif shape == "store-computed-load":
+            sized(n)
+            a.emit("DUP1", 1, 2, "ADD", "SWAP1", "SSTORE", "SLOAD", "POP")
+        elif shape == "load-unwritten":
+            sized(n)
+            a.emit("SLOAD", rng.choice([["POP"], [0, "MSTORE"]]))
+        elif shape == "value-side":
+            sized(n)
+            a.emit(rng.randrange(4), "SSTORE", rng.randrange(4), "SLOAD", "POP")
+        elif shape == "hash":
+            sized(n)
+            a.emit(0, "MSTORE", 0x20, 0, "SHA3", rng.choice([["POP"], ["SLOAD", "POP"]]))
+        elif shape == "balance":
+            sized(n)
+            a.emit(rng.choice(["BALANCE", "EXTCODESIZE", "EXTCODEHASH", "BLOCKHASH", "ISZERO"]), "POP")
+        else:
+            sized(n)
+            a.emit(0x40, "MSTORE", 0x40, "MLOAD", rng.choice([["POP"], [2, "SSTORE"]]))
+    a.emit("STOP")
+    return a.assemble(), feats
+
+
 def every_producer(rng):
     """A running value X is grown for a few steps and kept at the bottom of the stack; then a handful of opcodes
     (drawn from *every* opcode that takes operands) are executed with X or a small constant in each operand position.
@@ -1433,7 +1476,7 @@ def multi_evidence(rng):
     branches = []
     kinds = ["dynarray", "mapping", "bool-write", "address-write", "masked-write", "packed-write", "signed-use",
              "numeric-use", "copy-from", "plain-read", "bytes32-compare", "unsigned-use", "address-use", "selector-use",
-             "struct-init", "struct-init"]
+             "struct-init", "struct-init", "cmp-result", "cmp-result"]
     wordish = ["bool-write", "address-write", "masked-write", "signed-use", "numeric-use", "unsigned-use", "address-use",
                "plain-read", "bytes32-compare", "selector-use"]
     for s in slots:
@@ -1503,6 +1546,26 @@ def multi_evidence(rng):
             a.emit(sp, "SLOAD", 0, "MSTORE")
         elif k == "bytes32-compare":
             a.emit(sp, "SLOAD", ("push", rng.getrandbits(256), 32), "EQ", 0, "MSTORE")
+        elif k == "cmp-result":
+            # the raw result of a comparison / boolean operator is stored, and its negation (or a comparison of it)
+            # is stored or used too: one value, seen by the boolean-operator rule from both sides
+            a.emit(4, "CALLDATALOAD", rng.choice([[36, "CALLDATALOAD"], ["CALLVALUE"], [sp, "SLOAD"]]),
+                   rng.choice(["LT", "GT", "EQ", "SLT", "SGT"]))
+            if rng.random() < 0.3:
+                a.emit("ISZERO")
+            a.emit("DUP1", sp, "SSTORE")
+            nxt = rng.choice(["iszero-store", "iszero-iszero-store", "eq-store", "jumpi-less", "and-one"])
+            other = 0x70 + s
+            if nxt == "iszero-store":
+                a.emit("ISZERO", other, "SSTORE")
+            elif nxt == "iszero-iszero-store":
+                a.emit("ISZERO", "ISZERO", other, "SSTORE")
+            elif nxt == "eq-store":
+                a.emit(1, "EQ", other, "SSTORE")
+            elif nxt == "and-one":
+                a.emit(1, "AND", other, "SSTORE")
+            else:
+                a.emit("ISZERO", 0, "MSTORE")
         elif k == "struct-init":
             # one SSTORE packing 2-3 fields; a non-first field's value is a stack duplicate that is also stored, whole,
             # in another slot (one value, two storage writes)
